@@ -9,7 +9,7 @@ import numpy as np
 
 import pyfvtool as pf
 
-from ..oracles import CLASSES, NDIM, LABELS, ALL_LABELS, AXKIND, Geom
+from ..oracles import CLASSES, NDIM, LABELS, ALL_LABELS, AXKIND, SIDES, Geom
 from .. import gen
 from ..common import to_list
 
@@ -128,6 +128,54 @@ def check_mesh(m, cls, faces, form, L=None):
     return bad
 
 
+def use_and_recheck(rng, m, cls, faces, cov):
+    """the grid "reports" the same geometry after it has been USED: location variables taken from it and edited in place, variables
+    with non-default and periodic boundary conditions built on it, every term builder and a solve run on it. Returns check_mesh's
+    verdict afterwards (the exact numbers again, bit for bit)."""
+    from ..oracles import Geom
+    g = Geom(cls, faces)
+    nd = g.nd
+    with np.errstate(all='ignore'):
+        X, F = pf.cellLocations(m), pf.faceLocations(m)
+        for obj, names in ((X, ('_value',)), (F, ('_xvalue', '_yvalue', '_zvalue'))):
+            for nm in names:
+                a = getattr(obj, nm, None)
+                if isinstance(a, np.ndarray) and a.size and a.dtype.kind == 'f':
+                    a *= 3.0
+                    a += 1.0
+        if isinstance(X, (list, tuple)):
+            for v in X:
+                v.value = np.asarray(v.value) * 2.0 + 1.0
+        spec = None
+        per = [k for k in range(nd) if gen.periodic_ok(cls, k) and rng.random() < 0.6]
+        for _ in range(20):
+            spec = gen.gen_bc_spec(rng, g, periodic_axes=per)
+            if gen.bc_nonsingular(g, spec):
+                break
+        phi = pf.CellVariable(m, rng.normal(0, 1, g.dims), gen.make_bc(pf, m, g, spec))
+        D, _ = gen.face_arrays(rng, g, 'random', positive=True)
+        u, _ = gen.face_arrays(rng, g, 'sign')
+        Df, uf = gen.facevar(pf, m, D), gen.facevar(pf, m, u)
+        terms = [pf.transientTerm(phi, 0.3, 1.0), -pf.diffusionTerm(Df), pf.convectionUpwindTerm(uf), pf.convectionTerm(uf) * 0.1,
+                 pf.convectionTVDupwindRHSTerm(uf, phi, pf.fluxLimiter('SUPERBEE')), pf.linearSourceTerm(pf.CellVariable(m, 0.5)),
+                 pf.constantSourceTerm(pf.CellVariable(m, 1.0))]
+        pf.solvePDE(phi, terms)
+        phi.apply_BCs()
+        rhs = pf.divergenceTerm(Df * pf.gradientTerm(phi) - uf * pf.upwindMean(phi, uf))
+        new = pf.solveExplicitPDE(phi, 1e-4, rhs)
+        for fmean in (pf.linearMean, pf.arithmeticMean, pf.geometricMean, pf.harmonicMean):
+            fmean(pf.CellVariable(m, np.abs(rng.normal(0, 1, g.dims)) + 0.1))
+        new.domainIntegral()
+        new.plotprofile()
+        for k in per:                       # conditions switched back to non-periodic, one more solve
+            for sd in SIDES[k]:
+                getattr(phi.BCs, sd).periodic = False
+        pf.solvePDE(phi, [pf.transientTerm(phi, 0.3, 1.0), -pf.diffusionTerm(Df)])
+    cov['mesh_rechecked_after_use'] = 1
+    return [(mech + '/after-use', 'after using the grid (location variables edited in place, periodic and Robin variables, all builders, solves): ' + msg)
+            for mech, msg in check_mesh(m, cls, faces, 'faces')]
+
+
 def run_case(case):
     rng = gen.rng_for(*case['seed'])
     cls = case['cls']
@@ -141,6 +189,9 @@ def run_case(case):
             cov['geo:' + case['geo']] = 1
         m = gen.build_mesh(pf, cls, faces)
         bad = check_mesh(m, cls, faces, 'faces')
+        if case.get('use'):
+            first = {b_[0] for b_ in bad}          # (SphericalGrid3D: the known volume finding is there before and after)
+            bad = bad + [x_ for x_ in use_and_recheck(rng, m, cls, faces, cov) if x_[0][:-len('/after-use')] not in first]
         polekind = ''
         if cls == 'SphericalGrid3D':
             polekind = ('N' if faces[1][0] == 0.0 else '') + ('S' if faces[1][-1] == math.pi else '')
@@ -209,6 +260,9 @@ def plan(tier, seed):
                 fam = gen.FAMILIES[i % 5] if form == 'faces' and i % 2 == 0 else None
                 cases.append({'cls': cls, 'form': form, 'seed': [seed, 10, idx, i], 'family': fam,
                               'nmax': 6 if tier == 'quick' else 12})
+                if form == 'faces' and i % 4 == 1:     # ... and the grid is the same grid after it has been used
+                    cases.append({'cls': cls, 'form': form, 'seed': [seed, 10, idx, 200000 + i], 'family': gen.FAMILIES[(i // 4) % 5], 'use': True,
+                                  'nmax': 4 if NDIM[cls] < 3 else 3})
                 if form == 'faces' and i % 3 != 1:     # tiny / huge length units and almost-uniform spacing
                     cases.append({'cls': cls, 'form': form, 'seed': [seed, 10, idx, 100000 + i], 'family': None, 'geo': ['nano', 'jitter', 'mega', 'int', 'offset', 'negative', 'wild'][(i - i // 3) % 7],
                                   'nmax': 6 if tier == 'quick' else 12})
@@ -222,6 +276,8 @@ def plan(tier, seed):
 def floors(agg, tier):
     need = 30 if tier == 'quick' else 1000
     out = []
+    if agg['cov'].get('mesh_rechecked_after_use', 0) < 60:
+        out.append('mesh_rechecked_after_use < 60')
     for st in ('plain', 'int-L', 'numpy-scalars'):
         if agg['cov'].get('NL_argument_style:' + st, 0) < 30:
             out.append('NL_argument_style:%s < 30' % st)
